@@ -69,10 +69,10 @@ func c19Specs() map[string][]byte {
 // under the names the generated code uses (log, fmt), so that output which
 // depends on neighbouring files shows up as a difference.
 var c19UserFiles = map[string]string{
-	"user.go": "package gen\n\nimport (\n\tfmt \"example.com/xfmt\"\n\tlog \"example.com/xlog\"\n)\n\nfunc userHelper() {\n\tlog.Println(fmt.Sprintf(\"x\"), fmt.Errorf(\"y\"))\n\tlog.Printf(\"z\")\n}\n",
-	"models_test.go": "package gen\n\nimport \"testing\"\n\nfunc TestUser(t *testing.T) {}\n",
-	"README.md":      "# user notes\n",
-	"sub/keep.txt":   "keep me\n",
+	"user.go":         "package gen\n\nimport (\n\tfmt \"example.com/xfmt\"\n\tlog \"example.com/xlog\"\n)\n\nfunc userHelper() {\n\tlog.Println(fmt.Sprintf(\"x\"), fmt.Errorf(\"y\"))\n\tlog.Printf(\"z\")\n}\n",
+	"models_test.go":  "package gen\n\nimport \"testing\"\n\nfunc TestUser(t *testing.T) {}\n",
+	"README.md":       "# user notes\n",
+	"sub/keep.txt":    "keep me\n",
 	"handler_user.go": "package gen\n\n// a file whose name merely resembles a generated one\n",
 }
 
@@ -110,6 +110,23 @@ func C19(r *core.Run) int {
 			for _, c := range base {
 				histories = append(histories, []c19Inv{a, b, c})
 			}
+		}
+	}
+	// all histories of length <= 2 with the do-not-edit header switched as well
+	var base2 []c19Inv
+	for _, b := range base {
+		for _, dne := range []bool{true, false} {
+			b2 := b
+			b2.DNE = dne
+			base2 = append(base2, b2)
+		}
+	}
+	for _, a := range base2 {
+		for _, b := range base2 {
+			if a.DNE && b.DNE {
+				continue // already enumerated above
+			}
+			histories = append(histories, []c19Inv{a, b})
 		}
 	}
 	nExh := len(histories)
